@@ -195,6 +195,16 @@ def derived_cases(tier, rng):
         ([["Content-Type", "application/json; charset=latin-1"]], [b'"\xe9"']),
         ([["Content-Type", "application/json"]], [b'{"a": ', b'1}']),
         ([["Content-Type", "application/json"]], [b"{bad"]),
+        # encodings json.loads would sniff from bytes: the accessor decodes with the declared (default utf-8) charset first
+        ([["Content-Type", "application/json"]], [b'\xef\xbb\xbf{"a": 1}']),
+        ([["Content-Type", "application/json"]], ['{"a": "\u00e9"}'.encode("utf-16")]),
+        ([["Content-Type", "application/json"]], ['[1, 2]'.encode("utf-32-le")]),
+        ([["Content-Type", "application/json; charset=utf-16"]], ['{"a": "\u00e9"}'.encode("utf-16")]),
+        ([["Content-Type", "application/json; charset=nonsense"]], [b'{}']),
+        ([["Content-Type", "application/json"]], [b'"\xff"']),
+        ([["Content-Type", "application/json"]], [b'']),
+        ([["Content-Type", "application/x-www-form-urlencoded; charset=latin-1"]], [b"a=%E9&b=\xe9"]),
+        ([["Content-Type", "application/x-www-form-urlencoded"]], [b"a=\xff"]),
         ([["Content-Type", "text/plain"]], [b"x"]),
         ([["Content-Type", "application/x-www-form-urlencoded"]], [b"a=1&b=%C3%A9&a=2", b"&c="]),
         ([["Content-Type", "application/x-www-form-urlencoded; charset=utf-8"]], [b"a=%C3%A9"]),
@@ -216,7 +226,8 @@ def tree():
     if not os.path.isdir(root):
         os.makedirs(os.path.join(root, "sub"))
         for name, data in (("index.html", b"<h1>i</h1>"), ("a.txt", b"0123456789" * 3), ("page.html", b"<p>p</p>"), ("sub/index.html", b"sub"),
-                           ("bin.dat", bytes(range(40)))):
+                           ("bin.dat", bytes(range(40))),
+                           ("big.dat", bytes(i * 7 % 251 for i in range(300000)) + b"tail" * 75000)):
             with open(os.path.join(root, name), "wb") as f:
                 f.write(data)
             os.utime(os.path.join(root, name), (c02.MTIME, c02.MTIME))
@@ -242,6 +253,10 @@ def program_cases(tier, rng):
                        [["If-None-Match", "\"nomatch\""]], [["Range", "bytes=99-"]], [["Range", "bytes=2-1"]]):
                 for method in ("GET", "HEAD"):
                     yield kind, ["diff", kind, path, hs, method]
+    # a file larger than the default chunk size (256 KiB): ranges longer than a chunk, aligned and not, ending before EOF
+    for hs in ([], [["Range", "bytes=0-262144"]], [["Range", "bytes=0-262143"]], [["Range", "bytes=5-300000"]], [["Range", "bytes=10-280000,290000-590000"]],
+               [["Range", "bytes=262144-"]], [["Range", "bytes=-270000"]]):
+        yield "files", ["diff", "files", "/big.dat", hs, "GET"]
     for r in c05.recipes(tier, rng):
         if r[0] in ("stream", "sse") and any(isinstance(i, str) and i == "RAISE" for i in r[1]):
             continue  # the producer's exception propagates on both stacks (C05/C06); no response to compare
